@@ -102,6 +102,62 @@ func c20Attach(w *World, r *Report) {
 	if nCalls == 0 {
 		panic(undecided{"no call of Compiler.BuildNode"})
 	}
+	// a sibling that now only hands its work to a checked builder: decided there
+	for _, fn := range allFuncs(sp) {
+		if isTestFile(w, fn.Pos()) {
+			continue
+		}
+		if h := tailDelegate(fn); h != nil && callsNamed(h, "BuildNode") && !callsNamed(fn, "BuildNode") {
+			r.OK("R20.1", funcKey(fn)+": nodes built by BuildNode", fn.Pos(), "hands its whole work to "+h.Name()+", decided there")
+		}
+	}
+}
+
+// tailDelegate: fn consists of one block that returns the results of one
+// static call of a function of its package (everything else being the
+// evaluation of the arguments); that function.
+func tailDelegate(fn *ssa.Function) *ssa.Function {
+	if fn == nil || len(fn.Blocks) != 1 {
+		return nil
+	}
+	b := fn.Blocks[0]
+	ret, ok := b.Instrs[len(b.Instrs)-1].(*ssa.Return)
+	if !ok || len(ret.Results) == 0 {
+		return nil
+	}
+	var call *ssa.Call
+	for _, in := range b.Instrs {
+		if c, isC := in.(*ssa.Call); isC {
+			if call != nil {
+				return nil
+			}
+			call = c
+		}
+	}
+	if call == nil || call.Call.StaticCallee() == nil || call.Call.StaticCallee().Pkg != fn.Pkg {
+		return nil
+	}
+	for i, rv := range ret.Results {
+		if rv == ssa.Value(call) && len(ret.Results) == 1 {
+			continue
+		}
+		if ex, isEx := rv.(*ssa.Extract); isEx && ex.Tuple == ssa.Value(call) && ex.Index == i {
+			continue
+		}
+		return nil
+	}
+	return call.Call.StaticCallee()
+}
+
+func callsNamed(fn *ssa.Function, name string) bool {
+	for _, b := range fn.Blocks {
+		for _, in := range b.Instrs {
+			if c, ok := in.(*ssa.Call); ok && c.Call.StaticCallee() != nil && nm(c.Call.StaticCallee()) == name {
+				return true
+			}
+		}
+	}
+	return false
 }
 
 type c20Frame struct {
@@ -303,6 +359,14 @@ func c20DefaultCaseGate(w *World, r *Report) {
 			case *ssa.TypeAssert:
 				v = stripIface(x.X)
 				continue
+			case *ssa.UnOp:
+				// a variable a closure also reads lives in a cell: what was stored once
+				if al, isAl := x.X.(*ssa.Alloc); isAl && x.Op == token.MUL {
+					if st := cellSingleStore(al); st != nil {
+						v = stripIface(st)
+						continue
+					}
+				}
 			}
 			break
 		}
